@@ -8,6 +8,7 @@ mod mbuilder;
 mod pbuilder;
 mod models;
 mod parjac;
+mod pools;
 mod prob;
 mod report;
 mod sc;
@@ -55,7 +56,9 @@ fn main() {
     // workers room (virtual memory only)
     let _ = rayon::ThreadPoolBuilder::new().stack_size(1 << 29).build_global();
     // panics inside code under test are data; keep the default hook quiet
-    std::panic::set_hook(Box::new(|_| {}));
+    if std::env::var("VPH_PANIC_VERBOSE").is_err() {
+        std::panic::set_hook(Box::new(|_| {}));
+    }
     let rep = match args[1].as_str() {
         "lattice" => {
             let path = args.get(2).expect("export file");
